@@ -43,7 +43,7 @@
 (***************************************************************************)
 EXTENDS Naturals, Sequences, FiniteSets, TLC, FramingCore
 
-CONSTANTS Layouts,      \* sequence of [id, codec, atoms, bad, at] : the frames the codec pairs can produce
+CONSTANTS Layouts,      \* sequence of [id, codec, rep, atoms, bad, at] : the frames the codec pairs can produce
           MaxFrames,    \* longest message sequence
           PieceBounds,  \* set of upper bounds for the size of one read (a behaviour picks one)
           RecordHist    \* TRUE: keep the history of pieces (behaviour generation); FALSE: model checking
@@ -78,8 +78,12 @@ NumBad(fs) == Cardinality({k \in 1..Len(fs) : Layouts[fs[k]].bad # "ok"})
 Codecs == {Layouts[i].codec : i \in 1..Len(Layouts)}
 Of(c) == {i \in 1..Len(Layouts) : Layouts[i].codec = c}
 
-\* message sequences of one codec pair, at most one corrupted frame
-Sequences == UNION { { s \in [1..n -> Of(c)] : NumBad(s) <= 1 } : n \in 1..MaxFrames, c \in Codecs }
+Reps(c) == {i \in Of(c) : Layouts[i].rep}
+
+\* message sequences of one codec pair: every single frame; every sequence of 2..MaxFrames frames of
+\* the representative subset; at most one corrupted frame
+Sequences == {<<i>> : i \in 1..Len(Layouts)}
+             \cup UNION { { s \in [1..n -> Reps(c)] : NumBad(s) <= 1 } : n \in 2..MaxFrames, c \in Codecs }
 
 EndAt(k) == IF k = 0 THEN 0 ELSE IF k > Len(ends) THEN ends[Len(ends)] ELSE ends[k]
 TotalLen == ends[Len(ends)]
